@@ -288,7 +288,8 @@ def child_parses(spec, jobs):
             if job.get("abort"):
                 # a parse of this (reused) instance cut short by a failing callback;
                 # nothing is required of it, everything of the parses after it
-                peers.SEAM.reset((job["abort"]["seam"], job["abort"]["k"]))
+                peers.SEAM.reset((job["abort"]["seam"], job["abort"]["k"],
+                                  job["abort"].get("exc")))
                 clock.reset(budget)
                 try:
                     p.parse(text)
@@ -524,7 +525,8 @@ def gen_run(rng, tier):
                 seams += ["recognizer"] * 3
             if sc.get("dynamic"):
                 seams += ["filter"] * 2
-            job["abort"] = {"seam": rng.choice(seams), "k": rng.randint(1, 10)}
+            job["abort"] = {"seam": rng.choice(seams), "k": rng.randint(1, 10),
+                            "exc": rng.choice(peers.FAULT_EXC_NAMES)}
         jobs.append(job)
     return spec, jobs
 
